@@ -160,8 +160,16 @@ func (fr *Frame) execStmt(s *State, st ast.Stmt, label string) *State {
 	case *ast.EmptyStmt:
 		return s
 	case *ast.SendStmt:
-		fr.eval(s, x.Value)
-		fr.eng.dropped["chan-send"]++
+		// channels are not modelled as queues; what is recorded is the last value sent on each channel (ghost,
+		// readable as sent(ch) in specifications and by a sequential receive on the same channel)
+		v := fr.eval(s, x.Value)
+		ch := fr.eval(s, x.Chan)
+		if ct, ok := fr.typeOf(x.Chan).Underlying().(*types.Chan); ok && v != nil && ch != nil {
+			v = fr.convertTo(s, v, ct.Elem())
+			hn, hs := fr.eng.chanHeap(ct.Elem())
+			s.setHeap(hn, hs, fmt.Sprintf("(store %s %s %s)", s.heap(hn, hs), ch.S, v.S))
+		}
+		fr.eng.dropped["chan-send (recorded as last value sent)"]++
 		return s
 	case *ast.SelectStmt:
 		fr.unsupported(x.Pos(), "select statement")
